@@ -912,8 +912,8 @@ func bufEncCase(c *mon.Case, idx int, hid byte) {
 		var got []byte
 		open := func(what string, ct, msg []byte) {
 			e := ep
-			if !asn1 && ct[0] == 0x30 {
-				e = "Decrypt" // priv.Decrypt looks at the bytes to tell the encodings apart
+			if !asn1 && ref.IsOneSequence(ct) {
+				e = "Decrypt" // priv.Decrypt is specified to read input that is exactly one DER SEQUENCE as ASN.1
 			}
 			cin := ar.put(offCT, ct)
 			do := o
